@@ -1,2 +1,37 @@
-(** Theorems for C16: filled in below as the proofs land. *)
-From JL Require Import Base.Json.
+(** * C16: cat concatenates JS string forms; substr slices by Unicode character.
+    Statements only; proofs are in Proofs/OpsBasic.v. *)
+From Coq Require Import List ZArith.
+From JL Require Import Base.Json Base.Monad Model.JsOp Model.Ops Spec.Specs Spec.OpSpecs Proofs.OpsBasic.
+Import ListNotations.
+
+(** cat is the concatenation of the operands' string forms (strings are code-point lists, so
+    every index below counts Unicode characters, never bytes) *)
+Theorem C16_cat : forall vs, op_cat vs = Ok (Str (concat (map to_string_spec vs))).
+Proof. exact op_cat_spec. Qed.
+Print Assumptions C16_cat.
+
+Theorem C16_to_string : forall v, to_string v = to_string_spec v.
+Proof. exact to_string_eq. Qed.
+Print Assumptions C16_to_string.
+
+Theorem C16_cat_in_pieces :
+  forall xs ys, cat_spec [Str (cat_spec xs); Str (cat_spec ys)] = cat_spec (xs ++ ys).
+Proof. exact cat_pieces. Qed.
+Print Assumptions C16_cat_in_pieces.
+
+(** substr on two or three operands is the specification (start: skip / count from the end;
+    length: take that many / stop that many before the end; clamped to the string) *)
+Theorem C16_substr : forall vs, (length vs = 2 \/ length vs = 3) -> op_substr vs = substr_op_spec vs.
+Proof. exact op_substr_spec. Qed.
+Print Assumptions C16_substr.
+
+Theorem C16_substr_split :
+  forall s i, (0 <= i)%Z -> substr_spec s 0 (Some i) ++ substr_spec s i None = s.
+Proof. exact substr_split. Qed.
+Print Assumptions C16_substr_split.
+
+Example C16_nonvacuous :
+  substr_spec [104; 233; 108; 108; 111]%N (-2) None = [108; 111]%N /\
+  substr_spec [104; 233; 108; 108; 111]%N 0 (Some (-1)%Z) = [104; 233; 108; 108]%N /\
+  substr_spec [104; 233]%N (-9223372036854775808) (Some 9223372036854775807%Z) = [104; 233]%N.
+Proof. vm_compute. repeat split. Qed.
